@@ -4,15 +4,17 @@ import VivModel.Model.Artifact
 
 ```
 data <id> json|table|unser|zerorow|badframe [<qcols> <rows> <cols> <isEmpty>]   -- declare a value (table: what filters see)
-op write k=<key> <id|none> | op load k=<key> | op remove k=<key> | op replace k=<key> <id|none> | op clear | op reopen
-obs self|fresh         -- keys, hdf.get_keys, a second Artifact on the path, load of every reported key
+op write k=<key> <id|none> | op load k=<key> | op remove k=<key> | op replace k=<key> <id|none> | op clear
+op reopen <terms>      -- the acting artifact becomes Artifact(path, filter_terms=terms)
+obs self|fresh         -- keys, hdf.get_keys, bare groups, a second UNFILTERED Artifact on the path and what every
+                       -- reported key loads through it; `self`: also what every key loads through the acting artifact
 fload k=<key> <terms>  -- Artifact(path, filter_terms=terms).load(key); terms = `;`-separated RPN token lists
 ```
 Keys are dotted strings behind the prefix `k=` (so the empty key is a token). -/
 open Viv Viv.Proto Viv.Artifact
 
 structure St where
-  art    : Art := Artifact.init
+  fa     : FArt := {}
   datas  : List (Nat × Data) := []
   tables : List (Nat × Table) := []
 
@@ -28,10 +30,25 @@ def showNode : Node → String
   | .tbl d => s!"tbl:{d}"
   | .keysNode ks => "keys:" ++ "+".intercalate (ks.map showKey)
 
-def showOut : Out → String
+def plus (xs : List String) : String := if xs.isEmpty then "-" else "+".intercalate xs
+
+/-- a node as the acting artifact (filter terms `terms`) hands it out: tables as a view -/
+def showView (tables : List (Nat × Table)) (terms : List Term) : Node → String
+  | .tbl d =>
+    match tables.find? (·.1 == d) with
+    | none => "unknown-table"
+    | some (_, t) =>
+      match viewOf t terms with
+      | none => "no-view"
+      | some v => s!"tbl:{d}:r{plus (v.rows.map (fun e => toString e.1))}:c{plus v.cols}"
+  | n => showNode n
+
+def showOut (s : St) : Out → String
   | .ok => "ok"
   | .rejected => "rejected"
-  | .data n => "data " ++ showNode n
+  | .data n => "data " ++ showView s.tables s.fa.terms n
+
+def setArt (s : St) (a : Art) : St := { s with fa := { s.fa with art := a } }
 
 def kind? : String → Option Kind
   | "json" => some .json
@@ -76,10 +93,14 @@ def parseTerm (toks : List String) : Option Term :=
 def parseTerms (t : String) : Option (List Term) :=
   (strLists t).mapM parseTerm
 
-def obsLoads (a : Art) (ks : List Key) : Art × List String :=
+def obsLoads (sh : Node → String) (a : Art) (ks : List Key) : Art × List String :=
   ks.foldl (fun (acc : Art × List String) k =>
     let (a', o) := load acc.1 k
-    (a', acc.2 ++ [showKey k ++ "=" ++ (match o with | .data n => showNode n | _ => "err")])) (a, [])
+    (a', acc.2 ++ [showKey k ++ "=" ++ (match o with | .data n => sh n | _ => "err")])) (a, [])
+
+def doOp (s : St) (o : Op) : St × String :=
+  let (fa, out) := s.fa.step (.op o)
+  ({ s with fa := fa }, showOut s out)
 
 def step (s : St) : List String → St × String
   | ["data", id, "table", qc, rows, cols, emp] =>
@@ -94,56 +115,61 @@ def step (s : St) : List String → St × String
     | _, _ => (s, "bad-op")
   | ["op", "write", k, d] =>
     match parseKey k, dataArg s d with
-    | some k, some d => let (a, o) := Artifact.step s.art (.write k d); ({ s with art := a }, showOut o)
+    | some k, some d => doOp s (.write k d)
     | _, _ => (s, "bad-op")
   | ["op", "replace", k, d] =>
     match parseKey k, dataArg s d with
-    | some k, some d => let (a, o) := Artifact.step s.art (.replace k d); ({ s with art := a }, showOut o)
+    | some k, some d => doOp s (.replace k d)
     | _, _ => (s, "bad-op")
   | ["op", "load", k] =>
     match parseKey k with
-    | some k => let (a, o) := Artifact.step s.art (.load k); ({ s with art := a }, showOut o)
+    | some k => doOp s (.load k)
     | none => (s, "bad-op")
   | ["op", "remove", k] =>
     match parseKey k with
-    | some k => let (a, o) := Artifact.step s.art (.remove k); ({ s with art := a }, showOut o)
+    | some k => doOp s (.remove k)
     | none => (s, "bad-op")
-  | ["op", "clear"] => let (a, o) := Artifact.step s.art .clearCache; ({ s with art := a }, showOut o)
-  | ["op", "reopen"] => let (a, o) := Artifact.step s.art .reopen; ({ s with art := a }, showOut o)
+  | ["op", "clear"] => doOp s .clearCache
+  | ["op", "reopen", terms] =>
+    match parseTerms terms with
+    | none => (s, "bad-op")
+    | some terms => let (fa, o) := s.fa.step (.reopenWith terms); ({ s with fa := fa }, showOut s o)
   | ["obs", mode] =>
     if mode ≠ "self" ∧ mode ≠ "fresh" then (s, "bad-op") else
-    let a := s.art
+    let a := s.fa.art
     let keys := showKeys a.keys
     let file := showKeys (fileKeys a) ++ " groups=" ++ showKeys a.groups
-    let fresh := openArtifact a
-    let (a1, _) := Artifact.step a .probe
     let user := a.keys.filter (· != ksKey)
-    match mode, fresh with
-    | "self", _ =>
-      let (a2, ls) := obsLoads a1 user
-      ({ s with art := a2 }, s!"keys={keys} file={file} fresh={match fresh with | some f => showKeys f.keys | none => "err"} loads={showStrs ls}")
-    | _, some f =>
-      let (_, ls) := obsLoads f user
-      ({ s with art := a1 }, s!"keys={keys} file={file} fresh={showKeys f.keys} loads={showStrs ls}")
-    | _, none =>
-      ({ s with art := a1 }, s!"keys={keys} file={file} fresh=err loads={showStrs (user.map (fun k => showKey k ++ "=nofresh"))}")
+    -- a second, unfiltered artifact on the path: its keys and what every reported key loads through it
+    let fresh := openArtifact a
+    let freshS := match fresh with | some f => showKeys f.keys | none => "err"
+    let loads := match fresh with
+      | some f => (obsLoads showNode f user).2
+      | none => user.map (fun k => showKey k ++ "=nofresh")
+    let a1 := (Artifact.step a .probe).1
+    -- `self`: the same keys through the acting artifact (its filter terms, its cache)
+    let (a2, selfS) :=
+      if mode = "self" then
+        let (a2, ls) := obsLoads (showView s.tables s.fa.terms) a1 user
+        (a2, showStrs ls)
+      else (a1, "-")
+    (setArt s a2, s!"keys={keys} file={file} fresh={freshS} loads={showStrs loads} self={selfS}")
   | ["fload", k, terms] =>
     match parseKey k, parseTerms terms with
     | some k, some terms =>
       -- Artifact.__init__: _parse_draw_filters first, then create_hdf_with_keyspace / Keys
       match drawColumns terms with
       | none => (s, "ctor-err")
-      | some cf =>
-        match openArtifact s.art with
+      | some _ =>
+        match openArtifact s.fa.art with
         | none => (s, "ctor-err")
         | some f =>
-          let s1 := { s with art := (Artifact.step s.art .probe).1 }
+          let s1 := setArt s (Artifact.step s.fa.art .probe).1
           match load f k with
           | (_, .data (.tbl d)) =>
             match s.tables.find? (·.1 == d) with
             | none => (s1, "bad-op")
-            | some (_, t) =>
-              (s1, s!"tbl:{d} rows={showNats ((loadRows t terms).map (·.1))} cols={showStrs (loadCols t cf)}")
+            | some _ => (s1, showView s.tables terms (.tbl d))
           | (_, .data n) => (s1, showNode n)
           | (_, _) => (s1, "rejected")
     | _, _ => (s, "bad-op")
